@@ -48,10 +48,20 @@ def make_image(case):
             v = {c: tuple(p) for c, p in v.items()}
         kw[k] = v
     if chans:
-        for k in ("illum_wavelen", "illum_polarization", "noise_sd"):
+        for j, k in enumerate(("illum_wavelen", "illum_polarization", "noise_sd")):
             v = kw[k]
             if isinstance(v, dict):
-                kw[k] = {c: v[c2] for c, c2 in zip(chans, list(v.keys())[:len(chans)])} if len(v) >= len(chans) else list(v.values())[0]
+                if len(v) < len(chans):
+                    kw[k] = list(v.values())[0]
+                    continue
+                per = {c: v[c2] for c, c2 in zip(chans, list(v.keys())[:len(chans)])}
+                # dictionaries are matched to channels by label: key them in an order of their own
+                rot = (case.get("seed", 0) + j) % len(chans)
+                keys = list(chans)[rot:] + list(chans)[:rot]
+                if (case.get("seed", 0) // 7 + j) % 2:
+                    keys = keys[::-1]
+                kw[k] = {c: per[c] for c in keys}
+                case.setdefault("_expected", {})[k] = per
     im = data_grid(a, spacing=tuple(case["spacing"]), name=case.get("name"), extra_dims={"illumination": list(chans)} if chans else None,
                    z=case.get("z", 0.0))
     o = case.get("origin") or [0.0, 0.0]
@@ -59,6 +69,24 @@ def make_image(case):
         im = im.assign_coords(x=im.x.values + o[0], y=im.y.values + o[1])
     im = update_metadata(im, **kw)
     return im
+
+
+def expected_per_channel(case, im):
+    """per-channel dictionary metadata must land on the channel named by its key."""
+    for k, per in (case.get("_expected") or {}).items():
+        got = im.attrs.get(k)
+        for c, want in per.items():
+            try:
+                g = got.sel(illumination=c).values
+            except Exception as e:
+                return "attr %s cannot be selected by channel %r: %s" % (k, c, e)
+            if k == "illum_polarization":
+                w = np.array([want[0], want[1], 0.0]); w = w / np.sqrt((w ** 2).sum())
+                if np.abs(np.asarray(g, dtype=float) - w).max() > 1e-15:
+                    return "polarization of channel %r stored as %r, given %r" % (c, np.asarray(g).tolist(), list(want))
+            elif float(g) != want:
+                return "%s of channel %r stored as %r, given %r (dictionary keyed in another order than the image's channels)" % (k, c, float(g), want)
+    return None
 
 
 def attrs_equal(a, b, what):
@@ -109,9 +137,13 @@ def strat_h5(tier):
 
 def run_h5(case):
     import holopy as hp
+    case = dict(case)
     im = make_image(case)
     fp = det_fingerprint(im)
     labels = ["channels_%d" % len(case["channels"] or []), case["dtype"], "cycles_%d" % case["cycles"]]
+    msg = expected_per_channel(case, im)
+    if msg:
+        return Outcome(failure("per_channel_metadata_by_label", msg), True, labels)
     cur = im
     with tempfile.TemporaryDirectory() as td:
         for cyc in range(case["cycles"]):
